@@ -436,7 +436,10 @@ def write_summary_file_vue(stats, filepath, year=2025, currency_format="${amount
     }
 
     # Assemble final HTML
-    data_script = f'window.spendingData = {json.dumps(spending_data)};'
+    # '<' is written as \u003c so that no text in the data ('</script>', '<!--') can end or
+    # derail the <script> element the JSON is embedded in
+    data_json = json.dumps(spending_data).replace('<', '\\u003c')
+    data_script = f'window.spendingData = {data_json};'
 
     if not embedded_html:
         # Write separate files for easier development
@@ -467,13 +470,18 @@ def write_summary_file_vue(stats, filepath, year=2025, currency_format="${amount
             '<script src="spending_report.js"></script>'
         )
     else:
-        # Embed everything inline (default)
-        final_html = html_template.replace(
-            '/* CSS_PLACEHOLDER */', css_content
-        ).replace(
-            '/* DATA_PLACEHOLDER */', data_script
-        ).replace(
-            '/* JS_PLACEHOLDER */', js_content
+        # Embed everything inline (default). All placeholders are substituted in one pass over
+        # the template, so placeholder text occurring inside the data is never substituted
+        import re
+        parts = {
+            '/* CSS_PLACEHOLDER */': css_content,
+            '/* DATA_PLACEHOLDER */': data_script,
+            '/* JS_PLACEHOLDER */': js_content,
+        }
+        final_html = re.sub(
+            r'/\* (?:CSS|DATA|JS)_PLACEHOLDER \*/',
+            lambda m: parts[m.group(0)],
+            html_template,
         )
 
     # Write output file
